@@ -360,7 +360,12 @@ def _is_enum_sort(srt):
     return srt.kind() == z3.Z3_DATATYPE_SORT and srt.num_constructors() > 1 and all(srt.constructor(i).arity() == 0 for i in range(srt.num_constructors()))
 
 
+CANDIDATE_SEARCH_S = 90.0
+
+
 def candidate_models(ctx: Ctx, ob: Obligation, n: int):
+    """bounded search for candidate counter-models; gives up after CANDIDATE_SEARCH_S seconds with what it has"""
+    deadline = time.time() + CANDIDATE_SEARCH_S
     g = z3.Solver()
     g.set("timeout", ctx.timeout_ms)
     fs = [_bounded(a) for a in ctx.ex.axioms() + ob.hyps] + [_bounded(z3.Not(ob.goal))]
@@ -382,6 +387,8 @@ def candidate_models(ctx: Ctx, ob: Obligation, n: int):
     enum_feats = [f for f in feats if _is_enum_sort(f.sort())][:10]
     for f in enum_feats:
         srt = f.sort()
+        if time.time() > deadline - CANDIDATE_SEARCH_S / 2:
+            break  # at most half of the time for learning
         for ci in range(srt.num_constructors()):
             val = srt.constructor(ci)()
             s = _mk_solver(ctx, 1500)
@@ -401,6 +408,8 @@ def candidate_models(ctx: Ctx, ob: Obligation, n: int):
         for l in lens[:8]:
             hints.append(l >= 2)
     for h in hints:
+        if time.time() > deadline:
+            break
         g.push()
         g.add(h)
         k = 0
@@ -412,7 +421,7 @@ def candidate_models(ctx: Ctx, ob: Obligation, n: int):
                 break
             g.add(z3.Or(*[f != mdl.eval(f, model_completion=True) for f in feats]))
         g.pop()
-    while len(out) < n and guarded_check(g, ctx.timeout_ms) == z3.sat:
+    while len(out) < n and time.time() < deadline and guarded_check(g, ctx.timeout_ms) == z3.sat:
         mdl = g.model()
         out.append(extract_model(ctx, mdl, ob.inputs))
         if not feats:
